@@ -544,7 +544,9 @@ private:
             for (int k = 0; k < nsigs; k++) {
                 if (sv == SigVer::BASE) {
                     int found = find_and_delete(code, push_raw(top(-int(isig) - k)));
-                    bool listed = false; for (auto& mp : mock_pairs) if (mp.first == top(-int(isig) - k)) listed = true;   // C11: a listed signature is accepted regardless of the rules for real ones
+                    // C11: a signature listed with one of the keys of this very operation is accepted regardless of the rules for real ones
+                    // (listed with a key the script does not involve, the option changes nothing)
+                    bool listed = false; for (auto& mp : mock_pairs) if (mp.first == top(-int(isig) - k)) for (int kk = 0; kk < nkeys; kk++) if (mp.second == top(-int(ikey) - kk)) listed = true;
                     if (found > 0 && (flags & F_CONST_SCRIPTCODE) && !listed) return Err::SIG_FINDANDDELETE;
                 }
             }
